@@ -10,22 +10,22 @@ import (
 const ruleCommon = "one evaluation = one simulated run (gateway + world in one bubble) fully determined by its seed; distinct = distinct FNV fingerprint of the canonical decision trace; non-trivial = "
 
 var planTable = map[string]Plan{
-	"C01": {Profiles: []string{"core", "core", "gc"}, Quick: 24000, Thorough: 400000, Level: "exploration",
+	"C01": {Profiles: []string{"core"}, Quick: 60000, Thorough: 1500000, Level: "exploration",
 		Rule: ruleCommon + "quiescence was reached with at least one client holding a resource that received at least one event (oracle C01.a evaluated at least once)"},
-	"C02": {Profiles: []string{"gc", "gc", "core"}, Quick: 24000, Thorough: 400000, Level: "exploration",
+	"C02": {Profiles: []string{"core"}, Quick: 60000, Thorough: 1500000, Level: "exploration",
 		Rule: ruleCommon + "a client received at least one frame carrying a resource set while it already held other resources"},
-	"C03": {Profiles: []string{"core", "gc"}, Quick: 24000, Thorough: 400000, Level: "exploration",
+	"C03": {Profiles: []string{"core"}, Quick: 60000, Thorough: 1500000, Level: "exploration",
 		Rule: ruleCommon + "at least one holding interval with one or more delivered events was checked against the service stream"},
-	"C07": {Profiles: []string{"core", "gc"}, Quick: 24000, Thorough: 400000, Level: "exploration",
+	"C07": {Profiles: []string{"core"}, Quick: 60000, Thorough: 1500000, Level: "exploration",
 		Rule: ruleCommon + "a connection had two or more requests outstanding at the same time"},
-	"C08": {Profiles: []string{"core", "limits"}, Quick: 24000, Thorough: 400000, Level: "exploration",
+	"C08": {Profiles: []string{"core"}, Quick: 60000, Thorough: 1500000, Level: "exploration",
 		Rule: ruleCommon + "at least two unsubscribe verdicts were compared with the counter model"},
-	"C09": {Profiles: []string{"lifecycle", "core"}, Quick: 24000, Thorough: 400000, Level: "exploration",
+	"C09": {Profiles: []string{"core"}, Quick: 60000, Thorough: 1500000, Level: "exploration",
 		Rule: ruleCommon + "at least one event subscription was released by the eviction timer and the end-of-run check ran"},
 }
 
 func init() {
-	planTable["C15"] = Plan{Profiles: []string{"core"}, Quick: 24000, Thorough: 400000, Level: "exploration",
+	planTable["C15"] = Plan{Profiles: []string{"core"}, Quick: 60000, Thorough: 1500000, Level: "exploration",
 		Rule: ruleCommon + "the run delivered at least one service message to the gateway"}
 }
 
